@@ -83,6 +83,8 @@ fn alphabet_b() -> Vec<Op> {
         a(K::Consume(255)),
         a(K::Advance(1)),
         a(K::Advance(65535)),
+        // the views of a clone taken while placeholders are pending hide them too
+        a(K::ClonePending),
     ]
 }
 
@@ -190,6 +192,8 @@ fn alphabet_d_suffix() -> Vec<Op> {
             side(K::FlushCache),
         ]);
     }
+    // B overwritten by `clone_from(&A)` (B may have placeholders of its own pending at that point)
+    v.push(a(K::CloneFromA));
     v
 }
 
